@@ -11,14 +11,16 @@ Unflat(n, shape) == [a \in 1..Len(shape) |-> (n \div Stride(shape, a)) % shape[a
 Flat(idx, shape) == ISumSeq([a \in 1..Len(shape) |-> idx[a] * Stride(shape, a)])
 At(t, idx) == t.val[Flat(idx, t.shape) + 1]
 \* build from a function of the (0-based) index tuple
-Mk(shape, f(_)) == [shape |-> shape, val |-> [n \in 1..Size(shape) |-> f(Unflat(n - 1, shape))]]
+\* (`\o <<>>` turns TLC's lazily evaluated function constructor into an explicit tuple: without it the body is
+\* re-evaluated at every application)
+Mk(shape, f(_)) == [shape |-> shape, val |-> [n \in 1..Size(shape) |-> f(Unflat(n - 1, shape))] \o <<>>]
 Indices(shape) == {Unflat(n, shape) : n \in 0..(Size(shape) - 1)}
 
 TZeros(shape) == Mk(shape, LAMBDA idx : GZero)
-TAdd(a, b) == [shape |-> a.shape, val |-> [n \in 1..Len(a.val) |-> GAdd(a.val[n], b.val[n])]]
-TSub(a, b) == [shape |-> a.shape, val |-> [n \in 1..Len(a.val) |-> GSub(a.val[n], b.val[n])]]
-TScale(z, a) == [shape |-> a.shape, val |-> [n \in 1..Len(a.val) |-> GMul(z, a.val[n])]]
-TConj(a) == [shape |-> a.shape, val |-> [n \in 1..Len(a.val) |-> GConj(a.val[n])]]
+TAdd(a, b) == [shape |-> a.shape, val |-> [n \in 1..Len(a.val) |-> GAdd(a.val[n], b.val[n])] \o <<>>]
+TSub(a, b) == [shape |-> a.shape, val |-> [n \in 1..Len(a.val) |-> GSub(a.val[n], b.val[n])] \o <<>>]
+TScale(z, a) == [shape |-> a.shape, val |-> [n \in 1..Len(a.val) |-> GMul(z, a.val[n])] \o <<>>]
+TConj(a) == [shape |-> a.shape, val |-> [n \in 1..Len(a.val) |-> GConj(a.val[n])] \o <<>>]
 TIsZero(a) == \A n \in 1..Len(a.val) : GIsZero(a.val[n])
 TNorm2(a) == ISumSeq([n \in 1..Len(a.val) |-> GAbs2(a.val[n])])
 
@@ -47,7 +49,7 @@ TTensordot(a, b, axa, axb) ==
         pb == [k \in 1..Rank(b) |-> IF \E i \in 1..Len(axb) : axb[i] = k
                                     THEN CHOOSE i \in 1..Len(axb) : axb[i] = k
                                     ELSE -(Len(fa) + (CHOOSE i \in 1..Len(fb) : fb[i] = k))]
-        cidx == [n \in 1..Size(csh) |-> Unflat(n - 1, csh)]
+        cidx == [n \in 1..Size(csh) |-> Unflat(n - 1, csh)] \o <<>>
         IdxA(idx, c) == [k \in 1..Rank(a) |-> IF pa[k] > 0 THEN c[pa[k]] ELSE idx[-pa[k]]]
         IdxB(idx, c) == [k \in 1..Rank(b) |-> IF pb[k] > 0 THEN c[pb[k]] ELSE idx[-pb[k]]]
     IN Mk(sh, LAMBDA idx : GSumSeq([n \in 1..Size(csh) |->
